@@ -292,6 +292,9 @@ def _aval(e, m):
         return m["C"]
     if k == "agg" and not e[3] and e[2] and e[1] not in ("tuple", "array", "closure"):
         return e[2]
+    if k == "agg" and e[3] and e[1] not in ("array", "closure"):
+        # a value with payload, e.g. Some(kind of the blocker): compared structurally
+        return ("agg", e[1], e[2], tuple(_aval(x, m) for x in e[3]))
     if m["is_cur"](e):
         return ("square", m["state"])
     if k == "un" and e[1] == "Not":
@@ -625,6 +628,8 @@ class RayWalk:
             v = descend(p.env.get(l, ("sym", l)), path)
             return v if v is not None else ("opaque", "shape")
         self.R = self.C = None
+        self.phase = 0
+        self.comp = comp
         self.ok_step = bool(self.cont)
         for l in sorted(self.state, key=str):
             forms = {elinear(after(p, l)) for p in self.cont}
@@ -647,6 +652,12 @@ class RayWalk:
             liR = elinear(iR) if iR is not None else None
             liC = elinear(iC) if iC is not None else None
             self.ok_init = liR == _lin_of({origin[0]: 1, comp[0]: 1}) and liC == _lin_of({origin[1]: 1, comp[1]: 1})
+            if not self.ok_init and liR == _lin_of({origin[0]: 1}) and liC == _lin_of({origin[1]: 1}):
+                # the walk keeps the position it came from and looks one step ahead (`loop { step; test }`
+                # entered on the origin): the square of the iteration is the one at position + (dr, dc);
+                # the sequence of squares looked at is the same origin + k*(dr, dc), k = 1, 2, ..
+                self.ok_init = True
+                self.phase = 1
             used = set()
             for p in self.paths:
                 for c in p.conds:
@@ -670,7 +681,12 @@ class RayWalk:
         ee = erase(e)
         if ee[0] == "sym" and ee[1] in self.squares:
             return True
-        return self.R is not None and square_lin(e, self.board_arg) == (_lin_of({("sym", self.R): 1}), _lin_of({("sym", self.C): 1}))
+        return self.R is not None and square_lin(e, self.board_arg) == self._pos()
+
+    def _pos(self):
+        if self.phase:
+            return (_lin_of({("sym", self.R): 1, self.comp[0]: 1}), _lin_of({("sym", self.C): 1, self.comp[1]: 1}))
+        return (_lin_of({("sym", self.R): 1}), _lin_of({("sym", self.C): 1}))
 
     def only_cur(self, d):
         """Does the expression depend on the walk state through the current square only?"""
@@ -691,7 +707,7 @@ class RayWalk:
         return True
 
     def cur_point(self, r, c):
-        return self.R is not None and elinear(r) == _lin_of({("sym", self.R): 1}) and elinear(c) == _lin_of({("sym", self.C): 1})
+        return self.R is not None and (elinear(r), elinear(c)) == self._pos()
 
     def walk_conds(self, p):
         """Conditions of a path that speak about the walk state: [(what, truth)]; what is 'empty' for
